@@ -12,7 +12,7 @@ def build(tier):
     src = hgen.preamble("C04", tier, ROOT) + "import vlib.hlib.c04 as L\n"
     conds = []
     T = 200 if q else 1500
-    n = 3 if q else 5
+    n = 3 if q else 4
     nt = 4 if q else 6
     # (1) get_permissions on symbolic paths, partitioned by the shape of the first entry
     firsts = ["/", "/a", "/a/b", "/b"] if q else ["/", "/a", "/a/b", "/b", "/a/a", "/a/b/a", "/b/b"]
